@@ -970,7 +970,7 @@ def files_of(scn):
 
 
 def run_observed(scn, base, plan=None, files_by_url=None, local_fault=None, trace=False, gate=None, path_fault=None,
-                 path_fault_kinds=("open-w",)):
+                 path_fault_kinds=("open-w",), real_writer=False):
     files_by_url = files_by_url or files_of(scn)
     faults = realise_plan(plan or {}, files_by_url)
     hook = state = None
@@ -980,7 +980,7 @@ def run_observed(scn, base, plan=None, files_by_url=None, local_fault=None, trac
         hook, state = path_fault_hook(path_fault, kinds=path_fault_kinds)
     with Instrument() as inst:
         res = P.run_tool(scn, base, faults=faults, on_event=hook, trace=trace or bool(hook), gate=gate,
-                         upstream_files=files_by_url)
+                         upstream_files=files_by_url, real_writer=real_writer)
     res.obs = inst.obs
     res.fault_hit = state["hit"] if state else None
     return res
